@@ -36,8 +36,9 @@ where
     let listener = TcpListener::bind((host.to_string().as_str(), port)).await?;
     let resolved_addr = listener.local_addr()?;
     let (stop_channel, stop_callback) = futures::channel::oneshot::channel::<()>();
+    let stop_signal = stop_callback.shared();
     let task_handle = async_rt::task::spawn(async move {
-        let mut stop_callback = stop_callback.fuse();
+        let mut stop_callback = stop_signal.clone().fuse();
         loop {
             select! {
                 incoming = listener.accept().fuse() => {
@@ -54,7 +55,7 @@ where
                             )
                         })
                         .map_err(|err| err.into());
-                    async_rt::task::spawn(cback(maybe_accepted));
+                    super::spawn_until_stopped(cback(maybe_accepted), stop_signal.clone());
                 }
                 _ = stop_callback => {
                     break
